@@ -223,7 +223,14 @@ pub fn one_script(r: &mut Rng, nlabels: usize, mode: &str) -> (Vec<u64>, Vec<u64
 }
 
 /// one established stream, then only reads / writes / shutdowns on it and deliveries
-pub fn single_script(r: &mut Rng, nlabels: usize) -> (Vec<u64>, Vec<u64>) {
+/// payloads of many sizes (one byte to beyond 64 KiB), so that anything size-dependent in the write / vectored-write /
+/// framing / read path is exercised
+fn g_big(r: &mut Rng, tag: u8) -> Vec<u8> {
+    let n = r.pick(&[0usize, 1, 300, 5000, 40_000, 70_000, 66_000, 30_000]);
+    (0..n).map(|i| (i as u32).wrapping_mul(7).wrapping_add(u32::from(tag)) as u8).collect()
+}
+
+pub fn single_script(r: &mut Rng, nlabels: usize, big: bool) -> (Vec<u64>, Vec<u64>) {
     let (ca, ea) = g_cfg(r, "single");
     let (cb, eb) = g_cfg(r, "single");
     let mut case = vec![30u64, 1];
@@ -247,7 +254,7 @@ pub fn single_script(r: &mut Rng, nlabels: usize) -> (Vec<u64>, Vec<u64>) {
         for e in 0..2u64 {
             tag = tag.wrapping_add(1);
             let mut l = vec![13, e, 0];
-            let d = g_data(r, tag);
+            let d = if big { g_big(r, tag) } else { g_data(r, tag) };
             lp(&mut l, &d);
             cands.push((6, l));
             let mut l = vec![14, e, 0];
@@ -255,11 +262,11 @@ pub fn single_script(r: &mut Rng, nlabels: usize) -> (Vec<u64>, Vec<u64>) {
             l.push(n);
             for _ in 0..n {
                 tag = tag.wrapping_add(1);
-                let d = g_data(r, tag);
+                let d = if big { g_big(r, tag) } else { g_data(r, tag) };
                 lp(&mut l, &d);
             }
             cands.push((2, l));
-            cands.push((7, vec![15, e, 0, r.pick(&[1u64, 2, 8, 8, 0])]));
+            cands.push((7, vec![15, e, 0, if big { r.pick(&[1u64, 1000, 100_000, 200_000, 0]) } else { r.pick(&[1u64, 2, 8, 8, 0]) }]));
             cands.push((1, vec![16, e, 0]));
         }
         let total: u32 = cands.iter().map(|c| c.0).sum();
@@ -376,7 +383,9 @@ pub fn generate(a: &Args, out: &mut Out) {
     }
     if a.mode.contains("single") {
         for k in 0..a.n {
-            let (case, res) = single_script(&mut r, if k % 4 == 0 { 120 } else { 40 });
+            // one script in sixty-four (and the first) moves big payloads
+            let big = k % 64 == 0;
+            let (case, res) = single_script(&mut r, if big { 24 } else if k % 4 == 0 { 120 } else { 40 }, big);
             out.emit(&case, &res);
         }
         return;
